@@ -435,7 +435,9 @@ def run(ctx):
         if wav is None:
             continue
         # resample
-        for target in rng.sample([4000, 8000, 16000, 22050, 32000, 44100, 48000, 11111, 96000, 2 * real_sr, real_sr // 2 or 1000, 25000, 100000], 4):
+        # (... and rates a hair off a simple ratio of the source rate: half + 1 Hz, equal + 1 Hz, a third + 1 Hz, double - 1 Hz)
+        near = [max(real_sr // 2, 999) + 1, real_sr + 1, max(real_sr // 3, 999) + 1, 2 * real_sr - 1]
+        for target in rng.sample([4000, 8000, 16000, 22050, 32000, 44100, 48000, 11111, 96000, 2 * real_sr, real_sr // 2 or 1000, 25000, 100000], 4) + rng.sample(near, 2):
             ctx.case(("resample", real_sr, target), dict(base, kind="resample", target=target), nontrivial=(real_sr % target != 0 and target % real_sr != 0))
             judge_resample(ctx, wav, target, dict(base, kind="resample", target=target))
         # spectrograms: whole and fractional numbers of samples per hop
